@@ -5,6 +5,7 @@ package chainsim
 
 import (
 	"bytes"
+	"encoding/binary"
 	"encoding/hex"
 	"encoding/json"
 	"fmt"
@@ -194,6 +195,14 @@ func (H) Gen(prop string, seed uint64, tier string) *hx.Case {
 	if r.Chance(0.25) {
 		nblocks = r.Range(2, 8)
 	}
+	fanout := prop == "C11" || (prop == "C17" && r.Chance(0.3))
+	if prop == "C11" {
+		nblocks = r.Range(6, 14)
+		cfg.YieldP = []float64{0.05, 0.2, 0.5}[r.Intn(3)]
+		cfg.TimerP = []float64{0, 0.05, 0.2}[r.Intn(3)]
+		cfg.SkipSave = 0
+		cfg.SaveTargetMs = []int{0, 20, 50, 5000}[r.Intn(4)]
+	}
 	violP := 0.0
 	var viols []string
 	var c05 []string
@@ -249,6 +258,11 @@ func (H) Gen(prop string, seed uint64, tier string) *hx.Case {
 			continue
 		}
 		o := ledger.BlockOpts{NTx: r.Pick(15, 25, 25, 15, 10, 5, 5), InBlockChain: r.Chance(0.4)}
+		if fanout {
+			// blocks that fan out: several transaction packs, more than 32 spent and created records, in-block chains
+			o.NTx = r.Range(8, 45)
+			o.InBlockChain = r.Chance(0.7)
+		}
 		mut := ""
 		if r.Chance(violP) {
 			if len(c05) > 0 && r.Chance(0.85) {
@@ -327,6 +341,27 @@ func (H) Gen(prop string, seed uint64, tier string) *hx.Case {
 		add(Op{Op: "deliver", B: bi})
 		if r.Chance(0.07) {
 			add(Op{Op: "deliver", B: bi}) // duplicate
+		}
+		if prop == "C11" {
+			// a save in flight when the next block arrives; HurryUp, map defragmentation and Close racing with it
+			switch r.Pick(25, 35, 10, 10, 10, 10) {
+			case 1:
+				add(Op{Op: "idle"})
+			case 2:
+				add(Op{Op: "save"})
+			case 3:
+				add(Op{Op: "idle"})
+				add(Op{Op: "hurryup"})
+			case 4:
+				add(Op{Op: "defragmap"})
+			case 5:
+				add(Op{Op: "idle"})
+				add(Op{Op: "reopen"})
+			}
+			if r.Chance(0.3) {
+				add(Op{Op: "tick", Ms: r.Range(1, 60)})
+			}
+			continue
 		}
 		switch r.Pick(60, 15, 10, 8, 7) {
 		case 1:
@@ -425,6 +460,7 @@ type run struct {
 	bad     bool
 	lastSaveHeight uint32
 	failedReorg bool
+	hookLog     []hookEvent
 	delivAt     map[[32]byte]int // effect-log length when the block was first handed to the node
 	delivOrder  []int
 	isPrefix    map[[32]byte]bool
@@ -750,9 +786,13 @@ func (H) Run(t *testing.T, c *hx.Case) *hx.Outcome {
 	scfg := simrt.Config{Seed: cfg.SchedSeed, YieldP: cfg.YieldP, TimerP: cfg.TimerP, MaxConsec: cfg.MaxConsec, StepBudget: 30_000_000}
 	res := simrt.Run(scfg, func() {
 		simrt.Sleep(time.Unix(cfg.Now0, 0).Sub(time.Now()))
+		if prop == "C11" || prop == "C07" {
+			simos.OnEffect = r.onEffect
+		}
 		r.boot()
 		r.compareState("after opening the template directory")
 		for _, o := range ops {
+			r.drainHooks()
 			if r.bad {
 				break
 			}
@@ -774,6 +814,11 @@ func (H) Run(t *testing.T, c *hx.Case) *hx.Outcome {
 					r.out.Probe("explicit_save", 1)
 					r.lastSaveHeight = r.model.Height
 				}
+			case "hurryup":
+				r.n.Ch.Unspent.HurryUp()
+			case "defragmap":
+				r.n.Ch.Unspent.DefragMap(true)
+				r.out.Probe("defrag_map", 1)
 			case "tick":
 				simrt.Sleep(time.Duration(o.Ms) * time.Millisecond)
 			case "reopen":
@@ -783,15 +828,21 @@ func (H) Run(t *testing.T, c *hx.Case) *hx.Outcome {
 				r.compareState(when + " (clean close + reopen)")
 			}
 		}
+		r.drainHooks()
 		if !r.bad {
 			// bounded liveness: everything that was delivered has been processed; final state must be the model's
 			r.compareState("end of history")
 		}
 		if !r.bad {
 			r.n.Close()
+			if fs, _ := filepath.Glob(filepath.Join(r.dir, "*.db.tmp")); len(fs) > 0 {
+				r.viol("snapshot.tmp-left-behind", "after Close() %d unfinished snapshot file(s) remain: %v", len(fs), fs)
+			}
+			r.drainHooks()
 			r.boot()
 			r.compareState("final clean close + reopen")
 			r.n.Close()
+			r.drainHooks()
 		}
 	})
 	out.Evals = 1
@@ -873,4 +924,91 @@ func (r *run) sample(ops []*Op) any {
 	sc := *r.cfg
 	sc.Blocks = nil
 	return map[string]any{"cfg": sc, "blocks": bl, "ops": ol}
+}
+
+// onEffect runs just before a file-system effect is applied.  When a snapshot becomes visible under
+// its final name it must describe the unspent set of exactly the block named in its header.
+func (r *run) onEffect(e *simos.Effect) {
+	if e.Kind != simos.KRename || filepath.Base(e.Path2) != "UTXO.db" || r.hookBad() {
+		return
+	}
+	d, err := os.ReadFile(filepath.Join(simos.Root, e.Path))
+	if err != nil || len(d) < 48 {
+		r.hookNote("snapshot.unreadable", fmt.Sprintf("a file of %d bytes (%v) is being renamed to UTXO.db", len(d), err))
+		return
+	}
+	r.hookNote("", "snapshot_became_visible")
+	height := binary.LittleEndian.Uint64(d[0:8]) &^ (1 << 63)
+	var hash [32]byte
+	copy(hash[:], d[8:40])
+	count := binary.LittleEndian.Uint64(d[40:48])
+	ln := r.l.Nodes[hash]
+	if ln == nil || uint64(ln.Height) != height {
+		r.hookNote("snapshot.header", fmt.Sprintf("a snapshot naming block %s at height %d became visible; the ledger has no such block at that height", hs(hash), height))
+		return
+	}
+	got := map[ledger.OutPoint]ledger.Coin{}
+	off := 48
+	recs := uint64(0)
+	for off < len(d) {
+		l, n := btc.VLen(d[off:])
+		if n == 0 || off+n+l > len(d) {
+			r.hookNote("snapshot.truncated", fmt.Sprintf("the snapshot of block %s that became visible is truncated at byte %d of %d", hs(hash), off, len(d)))
+			return
+		}
+		off += n
+		rec := utxo.NewUtxoRec(d[off : off+l])
+		off += l
+		recs++
+		for vout, o := range rec.Outs {
+			if o != nil {
+				got[ledger.OutPoint{Hash: rec.TxID, N: uint32(vout)}] = ledger.Coin{Value: o.Value, Pk: append([]byte(nil), o.PKScr...), Height: rec.InBlock, Coinbase: rec.Coinbase}
+			}
+		}
+	}
+	if recs != count {
+		r.hookNote("snapshot.count", fmt.Sprintf("the snapshot of block %s holds %d records but its header says %d", hs(hash), recs, count))
+		return
+	}
+	if !ln.Valid() {
+		r.hookNote("snapshot.of-invalid-block", fmt.Sprintf("a snapshot of block %s became visible, which the ledger calls invalid (%s)", hs(hash), ln.Clause))
+		return
+	}
+	if df := diffUTXO(got, ln.UTXO()); df != "" {
+		r.hookNote("snapshot.contents", fmt.Sprintf("the snapshot that became visible names block %s (height %d) but its records are not the unspent set of that block: %s", hs(hash), height, df))
+	}
+}
+
+type hookEvent struct{ class, msg string }
+
+// hookNote records a finding made inside a gocoin goroutine (race-invisible; merged by the main goroutine).
+//
+//go:norace
+func (r *run) hookNote(class, msg string) { r.hookLog = append(r.hookLog, hookEvent{class, msg}) }
+
+//go:norace
+func (r *run) hookBad() bool {
+	for _, e := range r.hookLog {
+		if e.class != "" {
+			return true
+		}
+	}
+	return false
+}
+
+//go:norace
+func (r *run) takeHookLog() []hookEvent {
+	l := r.hookLog
+	r.hookLog = nil
+	return l
+}
+
+func (r *run) drainHooks() {
+	for _, e := range r.takeHookLog() {
+		if e.class == "" {
+			r.out.Probe(e.msg, 1)
+		} else {
+			r.viol(e.class, "%s", e.msg)
+		}
+	}
 }
